@@ -337,11 +337,13 @@ WHAT = {"rret": "the value returned by the real full-copy reader, or the positio
 def trace_validation(pid, tier, seed, V, tag):
     """impl -> spec: recorded executions on random types and values validated against Trace_Ser.tla"""
     from .cursor import split_runs
-    runs, maxlen = (400, 40) if tier == "quick" else (4000, 150)
+    # (thorough, whole structure kept - C03 / C18: 75 MB of events took TLC more than 25 minutes with 4000 runs)
+    runs, maxlen = (400, 40) if tier == "quick" else ((1500, 150) if len(TRACE_FILTER[pid][0]) > 4 else (4000, 150))
     raw = os.path.join(WORK, tag, "recorded.ndjson")
     # ... and a few runs whose outermost sequences have lengths around the usual buffer sizes (255 .. 8195 items,
     # multi-byte characters straddling every power of two)
-    nlong = 16 if tier == "quick" else 80
+    # (the serializer program of a sequence of 8000 items costs TLC tens of seconds: 80 long runs took over 25 minutes)
+    nlong = 16 if (tier == "quick" or len(TRACE_FILTER[pid][0]) > 4) else 24
     open(raw, "w").write(harness(["record", str(seed), str(runs), str(maxlen)], timeout=3000)
                          + harness(["record", str(seed + 17), str(nlong), "40", "long"], timeout=3000))
     keep, mine = TRACE_FILTER[pid]
@@ -445,6 +447,41 @@ def validate_ser_traces(path, tag, V, pid, mine, module="Trace_Ser"):
         accepted += bad
         pending = pending[bad + 1:]
     return accepted, rejected
+
+
+def displaced(beh, V, tag):
+    """C03 on buffers that do not start at an aligned address: whenever ε-copy deserialization succeeds, every borrowed
+    part is still a block the real serializer wrote (same offset, same length), in bounds and aligned - whatever the
+    base address.  (Whether it must succeed at that address is C12's matter, not looked at here.)"""
+    cases, meta = [], []
+    for b in beh:
+        if b["mode"] != "pub" or not b["eps"].get("borrows"):
+            continue
+        for base in (1, 2, 4, 8):
+            c = {k: v for k, v in b.items() if k not in ("ser", "rows", "full", "eps", "vscaled")}
+            cases.append(dict(c, cmd="rt", base=base))
+            meta.append(b)
+    obs = replay(cases, tag + "_displaced")
+    for b, c, o in zip(meta, cases, obs):
+        if not o or "abort" in o or "error" in o or o.get("ser", {}).get("st") != "ok":
+            continue
+        e = o.get("eps", {})
+        if e.get("st") != "ok":
+            continue
+        V.count(("displaced", b["key"], json.dumps(b["v"]), c["base"]), True)
+        blocks = {(x["pos"], x["len"]) for x in o["ser"].get("ev", []) if x.get("ev") == "block"}
+        rep = {"behaviour": {k: b[k] for k in ("key", "v", "mode")}, "base": c["base"], "observed": {"eps": e, "blocks": sorted(blocks)}}
+        for g in e["borrows"]:
+            if g["len"] == 0:
+                continue
+            if not g["inb"]:
+                V.violate(f"C03:oob:{b['key']}", f"{b['key']}: at base address residue {c['base']} a borrowed part lies outside the input buffer", rep)
+            elif (g["off"], g["len"]) not in blocks:
+                V.violate(f"C03:notablock:{b['key']}", f"{b['key']}: at base address residue {c['base']} a borrowed part covers bytes "
+                          f"{g['off']}..{g['off'] + g['len']}, where the serializer wrote no zero-copy block (its blocks: {sorted(blocks)[:6]})", rep)
+            elif g["mis"] != 0:
+                V.violate(f"C03:align:{b['key']}", f"{b['key']}: at base address residue {c['base']} a borrowed part is misaligned for its element type", rep)
+    V.cov["displaced_buffer_cases"] = len(cases)
 
 
 def alloc_independence(beh, obs, V, tag):
@@ -564,6 +601,7 @@ def check(pid, tier, seed, V, facts, names_path):
     obs = replay(cases, tag)
     if pid == "C03":
         alloc_independence(beh, obs, V, tag)
+        displaced(beh, V, tag)
     for b, o in zip(beh, obs):
         judge(pid, b, o, facts, V)
     trace_validation(pid, tier, seed, V, tag)
